@@ -916,7 +916,8 @@ Section PermProofs.
   (* json.Marshal writes map keys in sorted order: the bytes do not depend on the order in which
      the annotations are listed *)
   Hypothesis marshal_perm : forall k c l sj a ann ann',
-      Permutation ann ann' -> marshal (mkManifest k c l sj a ann) = marshal (mkManifest k c l sj a ann').
+      NoDup (map fst ann) -> Permutation ann ann' ->
+      marshal (mkManifest k c l sj a ann) = marshal (mkManifest k c l sj a ann').
 
   Definition same_but_ann (o o' : opts) : Prop :=
     o_subject o = o_subject o' /\ o_layers o = o_layers o' /\ o_config o = o_config o' /\
@@ -949,6 +950,6 @@ Section PermProofs.
     destruct (rfc3339_ok v); [|discriminate]. injection EC1 as <-. injection EC2 as <-.
     destruct (requested_manifest_perm f at_ o o' _ _ S P) as (k & c & l & sj & a & -> & ->).
     unfold result_desc. cbn [m_kind m_ann m_config m_at d_dg d_sz d_mt d_at d_ann d_extra m_layers m_subject].
-    rewrite (marshal_perm k c l sj a _ _ P). repeat split; auto.
+    rewrite (marshal_perm k c l sj a _ _ N P). repeat split; auto.
   Qed.
 End PermProofs.
